@@ -73,7 +73,14 @@ func (p *Peers) Collect() (*WebRTCPeer, error) {
 	}
 	// Track new valid Snowflake in internal collection and pass along.
 	p.activePeers.PushBack(connection)
-	p.snowflakeChan <- connection
+	select {
+	case p.snowflakeChan <- connection:
+	case <-p.melt:
+		// The hand-over channel was still full (of peers that have gone
+		// stale and that nobody has popped yet) when End was called. End is
+		// waiting for collectLock; it will close this connection.
+		return nil, fmt.Errorf("Snowflakes have melted")
+	}
 	return connection, nil
 }
 
